@@ -117,7 +117,7 @@ func TestCheck(t *testing.T) {
 		for i := 0; i < rounds; i++ {
 			refreshRace(rb, rng, e, i)
 		}
-		missing, res := tv.ValidateDone(tlc.Opts{Dir: "TTLCache", Module: "TraceTTL", Config: "TraceTTL.cfg", Workers: 16, Timeout: 30 * time.Minute, HeapMB: 12000}, rb)
+		missing, res := tv.ValidateDoneChunked(tlc.Opts{Dir: "TTLCache", Module: "TraceTTL", Config: "TraceTTL.cfg", Workers: 16, Timeout: 30 * time.Minute, HeapMB: 12000}, rb)
 		fmt.Println("only-race:", rounds, "rounds, ok", res.OK, "missing", len(missing))
 		for _, i := range missing {
 			e.Violation(classifyConc(rb.TraceStrings(i)), "debug", tv.M{"trace": rb.TraceStrings(i)})
@@ -210,7 +210,7 @@ func TestCheck(t *testing.T) {
 	}
 	nSeq := len(cases)
 	fmt.Printf("sequential: %d traces, %d events\n", b.Len(), b.Lines())
-	missing, res := tv.ValidateDone(tlc.Opts{Dir: "TTLCache", Module: "TraceTTL", Config: "TraceTTL.cfg", Workers: 16, Timeout: ev.Pick(6*time.Minute, 40*time.Minute), HeapMB: 12000}, b)
+	missing, res := tv.ValidateDoneChunked(tlc.Opts{Dir: "TTLCache", Module: "TraceTTL", Config: "TraceTTL.cfg", Workers: 16, Timeout: ev.Pick(6*time.Minute, 40*time.Minute), HeapMB: 12000}, b)
 	fmt.Printf("TLC sequential validation: ok=%v rejected=%d distinct=%d wall=%s %s\n", res.OK, len(missing), res.Distinct, res.Wall.Round(time.Millisecond), res.What)
 	if !res.OK {
 		e.Inconclusive("sequential trace validation did not run: " + res.What + res.Tail(1500))
@@ -234,7 +234,7 @@ func TestCheck(t *testing.T) {
 		}
 	}
 	fmt.Printf("concurrent: %d histories (%d with overlapping calls), %d events\n", cb.Len(), overlaps, cb.Lines())
-	cmissing, cres := tv.ValidateDone(tlc.Opts{Dir: "TTLCache", Module: "TraceTTL", Config: "TraceTTL.cfg", Workers: 16, Timeout: ev.Pick(6*time.Minute, 40*time.Minute), HeapMB: 12000}, cb)
+	cmissing, cres := tv.ValidateDoneChunked(tlc.Opts{Dir: "TTLCache", Module: "TraceTTL", Config: "TraceTTL.cfg", Workers: 16, Timeout: ev.Pick(6*time.Minute, 40*time.Minute), HeapMB: 12000}, cb)
 	fmt.Printf("TLC concurrent validation: ok=%v rejected=%d distinct=%d wall=%s %s\n", cres.OK, len(cmissing), cres.Distinct, cres.Wall.Round(time.Millisecond), cres.What)
 	if !cres.OK {
 		e.Inconclusive("concurrent trace validation did not run: " + cres.What + cres.Tail(1500))
@@ -251,7 +251,7 @@ func TestCheck(t *testing.T) {
 	for i := 0; i < ev.Pick(150, 3000); i++ {
 		refreshRace(rb, rng, e, i)
 	}
-	rmissing, rres := tv.ValidateDone(tlc.Opts{Dir: "TTLCache", Module: "TraceTTL", Config: "TraceTTL.cfg", Workers: 16, Timeout: ev.Pick(6*time.Minute, 40*time.Minute), HeapMB: 12000}, rb)
+	rmissing, rres := tv.ValidateDoneChunked(tlc.Opts{Dir: "TTLCache", Module: "TraceTTL", Config: "TraceTTL.cfg", Workers: 16, Timeout: ev.Pick(6*time.Minute, 40*time.Minute), HeapMB: 12000}, rb)
 	fmt.Printf("TLC refresh-race validation: ok=%v traces=%d rejected=%d distinct=%d wall=%s %s\n", rres.OK, rb.Len(), len(rmissing), rres.Distinct, rres.Wall.Round(time.Millisecond), rres.What)
 	if !rres.OK {
 		e.Inconclusive("refresh-race trace validation did not run: " + rres.What + rres.Tail(1500))
@@ -265,7 +265,7 @@ func TestCheck(t *testing.T) {
 	// ---- (3) Stop vs a cleaner parked inside Cleanup
 	sb := &tv.Batch{}
 	stopScenarios(sb, e)
-	smissing, sres := tv.ValidateDone(tlc.Opts{Dir: "TTLCache", Module: "TraceTTL", Config: "TraceTTL.cfg", Workers: 2, Timeout: 3 * time.Minute}, sb)
+	smissing, sres := tv.ValidateDoneChunked(tlc.Opts{Dir: "TTLCache", Module: "TraceTTL", Config: "TraceTTL.cfg", Workers: 2, Timeout: 3 * time.Minute}, sb)
 	if !sres.OK {
 		e.Inconclusive("stop trace validation did not run: " + sres.What)
 		return
@@ -622,7 +622,7 @@ func selfTest(e *ev.Evidence) {
 	mk(1, miss)
 	mk(miss, miss)
 	mk(1, 1)
-	missing, res := tv.ValidateDone(tlc.Opts{Dir: "TTLCache", Module: "TraceTTL", Config: "TraceTTL.cfg", Workers: 2, Timeout: 2 * time.Minute}, b)
+	missing, res := tv.ValidateDoneChunked(tlc.Opts{Dir: "TTLCache", Module: "TraceTTL", Config: "TraceTTL.cfg", Workers: 2, Timeout: 2 * time.Minute}, b)
 	ok := res.OK && len(missing) == 2 && missing[0] == 1 && missing[1] == 2
 	e.Set("binding_selftest", tv.M{"valid_accepted_and_two_corrupted_rejected": ok})
 	if !ok {
